@@ -11,7 +11,9 @@ from __future__ import annotations
 from ..absint import Model, Opq, Atom as AtomV, Raised, Unknown, freeze, truth
 from ..model import AnalysisError
 from ..symeval import subterms, is_const, C, NONE
-from .util import mk_ev, summarize, func_loc, short, is_call, items
+import ast
+
+from .util import mk_ev, summarize, func_loc, short, is_call, items, N
 
 EXPLANATION = ("Finite-model effect analysis of the State interpreter's arms (which dictionary slot is written with which value relative to the "
                "namespace stack; pass-through of tagged values; stack discipline; other primitives re-bound unchanged; scan re-issued with the same "
@@ -56,7 +58,11 @@ def split_list(lst, ns):
 
 
 FUNCS = {"jax.tree_util.tree_leaves": lambda x, **kw: flat(x), "jax._src.util.split_list": split_list, "jax.util.split_list": split_list,
-         "jax.tree.leaves": lambda x, **kw: flat(x)}
+         "jax.tree.leaves": lambda x, **kw: flat(x),
+         # sub-jaxprs held by an equation's params: the finite models' equations (other than the scan arm's, which never reaches the
+         # fall-through) carry none
+         "genjax.pjax._sub_jaxprs": lambda params, **kw: [v for v in (params.values() if isinstance(params, dict) else ()) if getattr(v, "model_class", None) in ("Jaxpr", "ClosedJaxpr")],
+         "jax._src.core.jaxprs_in_params": lambda params, **kw: [], "jax.core.jaxprs_in_params": lambda params, **kw: []}
 
 
 def seq_eq(a, b):
@@ -80,6 +86,50 @@ def split_guards(guards, outer_loops=1):
             continue
         (outer if loops <= outer_loops else inner).append((c, v))
     return outer, inner, loops
+
+
+def merge_helper_kind(node):
+    """'deepmerge' for a two-parameter helper that walks `update.items()` and, where the new value and the existing entry are both
+    dictionaries, calls itself on (existing entry, new value) and otherwise assigns target[key] = value; 'merge' for the flat
+    key-wise assignment; None if neither shape is recognised."""
+    a = node.args
+    if len(a.args) != 2 or a.vararg or a.kwarg:
+        return None
+    T, U = a.args[0].arg, a.args[1].arg
+    loops = [n for n in ast.walk(node) if isinstance(n, ast.For) and isinstance(n.iter, ast.Call) and isinstance(n.iter.func, ast.Attribute)
+             and n.iter.func.attr == "items" and isinstance(n.iter.func.value, ast.Name) and n.iter.func.value.id == U
+             and isinstance(n.target, ast.Tuple) and len(n.target.elts) == 2 and all(isinstance(e, ast.Name) for e in n.target.elts)]
+    if len(loops) != 1:
+        return None
+    lp = loops[0]
+    K, V = lp.target.elts[0].id, lp.target.elts[1].id
+
+    def is_entry(e):   # target[k] / target.get(k) / target.setdefault(k, {})
+        if isinstance(e, ast.Subscript) and isinstance(e.value, ast.Name) and e.value.id == T and isinstance(e.slice, ast.Name) and e.slice.id == K:
+            return True
+        return isinstance(e, ast.Call) and isinstance(e.func, ast.Attribute) and e.func.attr in ("get", "setdefault") and isinstance(e.func.value, ast.Name) \
+            and e.func.value.id == T and e.args and isinstance(e.args[0], ast.Name) and e.args[0].id == K
+    assigns = [n for n in ast.walk(lp) if isinstance(n, ast.Assign) and len(n.targets) == 1 and is_entry(n.targets[0]) and isinstance(n.targets[0], ast.Subscript)
+               and isinstance(n.value, ast.Name) and n.value.id == V]
+    if not assigns:
+        return None
+    rec = [n for n in ast.walk(lp) if isinstance(n, ast.Call) and isinstance(n.func, ast.Name) and n.func.id == node.name and len(n.args) == 2
+           and is_entry(n.args[0]) and isinstance(n.args[1], ast.Name) and n.args[1].id == V]
+    if not rec:
+        return "merge"
+
+    def dict_tests(test):
+        subj = []
+        for n in ast.walk(test):
+            if isinstance(n, ast.Call) and isinstance(n.func, ast.Name) and n.func.id == "isinstance" and len(n.args) == 2 and ast.unparse(n.args[1]) in ("dict", "Mapping", "(dict,)"):
+                subj.append(n.args[0])
+        return subj
+    for iff in [n for n in ast.walk(lp) if isinstance(n, ast.If)]:
+        if any(r in list(ast.walk(iff)) for r in rec) and not any(r in [x for st in iff.orelse for x in ast.walk(st)] for r in rec):
+            subj = dict_tests(iff.test)
+            if any(isinstance(x, ast.Name) and x.id == V for x in subj) and any(is_entry(x) for x in subj):
+                return "deepmerge"
+    return None
 
 
 class Effects:
@@ -222,6 +272,26 @@ class Effects:
             if self.tracked(root):
                 self.out.append(("write", pre + tuple(p) + (m.ev(t[2][2]),), m.ev(t[2][3]), ln))
             return
+        if is_call(t, name=ST + "_nested_dict_get") and len(t[2]) >= 2:
+            # the lookup creates the missing nodes along the path
+            root, pre = self.loc(t[2][0])
+            p = m.ev(t[2][1])
+            if self.tracked(root) and isinstance(p, (list, tuple)) and len(p):
+                self.out.append(("touch", pre + tuple(p), None, ln))
+            return
+        if fn[0] == "name" and fn[1].startswith(ST) and len(t[2]) == 2 and not t[3]:
+            look = self.ev.p.lookup(fn[1])
+            if look is not None and look[0] == "func":
+                root = self.loc_root_only(t[2][0])
+                if self.tracked(root):
+                    kind = merge_helper_kind(look[1])
+                    if kind is None:
+                        raise Unknown(f"{fn[1]}(target, state): helper not recognised as a dictionary merge")
+                    if in_loop:
+                        raise Unknown("dictionary merge helper inside an inner loop")
+                    root, pre = self.loc(t[2][0])
+                    self.out.append((kind, pre, m.ev(t[2][1]), t[2][1], ln))
+                    return
         if fn[0] != "attr":
             return
         base, meth = fn[1], fn[2]
@@ -315,8 +385,10 @@ def fmt(effs):
     for e in effs:
         if e[0] == "write":
             out.append(f"write[{'/'.join(map(str, e[1]))}]={e[2]!r}")
-        elif e[0] == "merge":
-            out.append(f"merge[{'/'.join(map(str, e[1]))}]<-{e[2]!r}")
+        elif e[0] in ("merge", "deepmerge"):
+            out.append(f"{e[0]}[{'/'.join(map(str, e[1]))}]<-{e[2]!r}")
+        elif e[0] == "touch":
+            out.append(f"create-nodes[{'/'.join(map(str, e[1]))}]")
         else:
             out.append(" ".join(str(x) for x in e[:3]))
     return "; ".join(out) or "nothing"
@@ -488,6 +560,102 @@ def interpreter_rules(ctx, rule="OWN-namespace-relative-store"):
     scan_rules(ctx, I, rule)
 
 
+def state_fallthrough(ctx, rule="EXH-state-fallthrough"):
+    """The arm of State.eval_jaxpr_state for primitives it does not interpret re-binds the equation.  A primitive that carries a
+    sub-jaxpr (a jitted callee, cond, while_loop, checkpoint, custom_jvp ...) evaluates the tags inside it as identities, so everything
+    saved there is silently missing from the returned dictionary ("contains exactly the values passed to save").  Obligations on the
+    guarded event log (helpers inlined, generator helpers kept as opaque terms):
+      O1 the plain re-bind is reached only under the *negation* of a test that looks for the state primitives among the equations of
+         the interpreted equation's own sub-jaxprs (params of the interpreted equation -> jaxprs -> their eqns);
+      O2 that search tests state_p (a value tagged inside must not be missed) and descends into nested sub-jaxprs (the helper is on a
+         call-graph cycle, or a library traversal is used);
+      O3 on the positive side every event is a raise or an interpretation by this interpreter (self.eval_jaxpr_state / state(...)) of
+         a jaxpr taken from the equation's params - never the plain bind."""
+    from .pjaxr import events_by_kind, fnode
+    ev = mk_ev(ctx)
+    dotted = ST + "State.eval_jaxpr_state"
+    s = summarize(ctx, ev, dotted)
+    loc = func_loc(ctx, dotted)
+    construct = "state.State.eval_jaxpr_state[else]"
+    by = events_by_kind(s)
+    els = by.get(frozenset({"else"}), [])
+    binds = [e for e in els if e[1] == "call" and e[2][1][0] == "attr" and e[2][1][2] == "bind" and e[2][1][1][0] == "attr" and e[2][1][1][2] == "primitive"]
+    ctx.need(bool(binds), "State fall-through bind not found (anchor vanished)")
+    STATE_P = N(ST + "state_p")
+
+    def is_search(c):
+        """a test about equations of a jaxpr reached from the interpreted equation's params, mentioning state_p"""
+        if not isinstance(c, tuple):
+            return False
+        subs = list(subterms(c))
+        if STATE_P not in subs:
+            return False
+        for x in subs:
+            # subject equation: a loop variable over <something>.eqns where <something> is not the interpreter's own jaxpr parameter
+            if x[0] == "attr" and x[2] == "primitive" and x[1][0] == "iter":
+                itb = x[1][2]
+                if itb[0] == "attr" and itb[2] == "eqns" and itb[1][0] != "param":
+                    # ... and that something derives from the interpreted equation's params
+                    if any(y[0] == "attr" and y[2] == "params" and y[1][0] == "iter" and y[1][2] == ("attr", ("param", "jaxpr"), "eqns") for y in subterms(itb[1])):
+                        return True
+        return False
+    def implied(c, v):
+        """literals implied by the guard literal (c is v): ¬x flips, a true conjunction makes every conjunct true, a false disjunction makes
+        every disjunct false; a false conjunction / true disjunction implies nothing about its parts."""
+        if isinstance(c, tuple) and c and c[0] == "unop" and c[1] == "not":
+            yield from implied(c[2], not v)
+        elif isinstance(c, tuple) and c and c[0] == "boolop" and ((c[1] == "and" and v) or (c[1] == "or" and not v)):
+            for y in c[2]:
+                yield from implied(y, v)
+        elif isinstance(c, tuple) and c and c[0] == "boolop":
+            return
+        else:
+            yield c, v
+
+    def lits(e):
+        return [(a, p) for c, v in e[0] if isinstance(c, tuple) and isinstance(v, bool) for a, p in implied(c, v)]
+    unguarded = [e for e in binds if not any(p is False and is_search(a) for a, p in lits(e))]
+    if unguarded:
+        ctx.bad(rule, construct, "unguarded eqn.primitive.bind(*args, **params)",
+                "primitives carrying a sub-jaxpr (jit-wrapped callee, cond, while_loop, checkpoint, custom_jvp/vjp) are re-bound as they are: state_p inside them evaluates as the "
+                "identity and everything saved there is silently missing from the collected dictionary; input: state(lambda x: jax.jit(lambda y: save(a=y * 2)['a'])(x))(2.0) "
+                "returns (4.0, {})", loc)
+        return
+    # O2: the searching helper(s): module-level functions named in the search condition or reachable from the interpreter
+    conds = [a for e in binds for a, p in lits(e) if p is False and is_search(a)]
+    names = {x[1][1] for c in conds for x in subterms(c) if is_call(x) and x[1][0] == "name"}
+    library = any(n.endswith("jaxprs_in_params") for n in names) and any(n.endswith("subjaxprs") for n in names)
+    anode, amod = fnode(ctx, dotted)
+    mod_funcs = {st.name: st for st in amod.tree.body if isinstance(st, ast.FunctionDef)}
+    edges = {f: {n.func.id for n in ast.walk(node) if isinstance(n, ast.Call) and isinstance(n.func, ast.Name) and n.func.id in mod_funcs} for f, node in mod_funcs.items()}
+
+    def reach(src):
+        seen, todo = set(), list(edges.get(src, ()))
+        while todo:
+            g = todo.pop()
+            if g not in seen:
+                seen.add(g)
+                todo.extend(edges.get(g, ()))
+        return seen
+    called = {n.id for n in ast.walk(anode) if isinstance(n, ast.Name) and n.id in mod_funcs}
+    helpers = set(called)
+    for f in called:
+        helpers |= reach(f)
+    mentions = {f for f in helpers if "state_p" in {n.id for n in ast.walk(mod_funcs[f]) if isinstance(n, ast.Name)}}
+    recursive = library or any(f in reach(f) for f in mentions)
+    if not recursive:
+        ctx.bad(rule, construct, "the tag search descends into nested sub-jaxprs",
+                "only the equations of the immediate sub-jaxpr are inspected: a value saved one level deeper (a jitted helper inside a cond branch) is still dropped silently", loc)
+        return
+    # O3: the positive side
+    pos = [e for e in els if any(p is True and is_search(a) for a, p in lits(e))]
+    handled = [e for e in pos if e[1] == "raise" or (e[1] == "call" and ((e[2][1][0] == "attr" and e[2][1][2] == "eval_jaxpr_state") or is_call(e[2][1], name=ST + "state")))]
+    if not handled:
+        ctx.bad(rule, construct, "a tagged sub-jaxpr is interpreted by this interpreter or rejected", "the search result is computed but neither raises nor interprets the sub-jaxpr", loc)
+        return
+    ctx.ok(rule, construct, "before the re-bind, state primitives found (recursively) in the equation's sub-jaxprs are interpreted by this interpreter or rejected with an error")
+
+
 def scan_rules(ctx, I, rule):
     ev = I.ev
     construct = "state.State.eval_jaxpr_state[scan_p]"
@@ -501,6 +669,7 @@ def scan_rules(ctx, I, rule):
     statecalls = list(dict.fromkeys(x for x in subterms(body) if is_call(x) and is_call(x[1], name=ST + "state")))
     problems = []
     merged_ok = None
+    shallow_at = None
     for depth in (0, 1, 2):
         stack = ["a", "b"][:depth]
         m = I.model("jax.lax.scan_p", params, {}, invals=list(invals), stack=list(stack))
@@ -531,7 +700,8 @@ def scan_rules(ctx, I, rule):
             kk = flat(m.ev(carry))
             if not seq_eq(args, [invals[0]] + kk + [Opq("xx")]):
                 problems.append(f"the transformed body is called with {args!r}, not (consts, carry, scanned input)")
-            BS = Opq("BODYSTATE")
+            # the state collected by one iteration of the body: a (possibly nested) dictionary
+            BS = {"n": Opq("BODYSTATE")}
             m.bind(("idx", sc, C(0)), [Opq("r", 0), Opq("r", 1)])
             m.bind(("idx", sc, C(1)), BS)
             ret = m.ev(body)
@@ -542,14 +712,15 @@ def scan_rules(ctx, I, rule):
             # effects: the stacked body state merged under the enclosing namespaces; outputs = (final carry, stacked ys)
             m.bind(("scan_final", sid), [Opq("F")])
             effs = I.effects(m)
-            mg = [e for e in effs if e[0] == "merge"]
-            others = [e for e in effs if e[0] != "merge"]
+            mg = [e for e in effs if e[0] in ("merge", "deepmerge")]
+            others = [e for e in effs if e[0] not in ("merge", "deepmerge", "touch")]
+            shallow_at = shallow_at or next((e[4] for e in mg if e[0] == "merge"), None)
             if others:
                 problems.append(f"unexpected effects in the scan arm: {fmt(others)}")
             if not mg:
                 merged_ok = (False, "scan state merged", "values saved inside scan bodies are never merged into the collected state", None)
             else:
-                srcs_ok = all(isinstance(e[2], Opq) and e[2] == Opq("stacked", BS) for e in mg)
+                srcs_ok = all(e[2] == {"n": Opq("stacked", Opq("BODYSTATE"))} for e in mg)
                 if not srcs_ok:
                     problems.append(f"the merged state is {mg[0][2]!r}, not the stacked state collected by the scan body")
                 rel = all(tuple(e[1]) == tuple(stack) for e in mg)
@@ -568,6 +739,40 @@ def scan_rules(ctx, I, rule):
         ctx.bad(rule, construct, merged_ok[1], merged_ok[2], f"{I.s.module.path}:{merged_ok[3]}" if merged_ok[3] else I.loc)
     elif merged_ok is not None:
         ctx.ok(rule, construct, "scan merge is relative to the enclosing namespace stack")
+    # --- the stacked body state is a nested dictionary (namespaces used inside the body) merged into a nested dictionary: a key-wise
+    #     assignment at the top level replaces a sub-dictionary that already holds values saved before the scan
+    if merged_ok is not None and merged_ok[0]:
+        c2 = "state.State.eval_jaxpr_state[scan_p] (merge depth)"
+        if shallow_at is not None:
+            ctx.bad("ALG-scan-merge", c2, "stacked body state merged recursively into the collected state",
+                    "the stacked body state is written key by key at the top level (`target[name] = value` / dict.update): a namespace saved by the scan body replaces the whole "
+                    "sub-dictionary of the same name, dropping values saved under it before the scan; input: namespace(lambda: save(x=1.), 'a')() followed by a scan whose body "
+                    "does namespace(lambda: save(y=x), 'a')() collects {'a': {'y': ...}} without a.x", f"{I.s.module.path}:{shallow_at}")
+        else:
+            ctx.ok("ALG-scan-merge", c2, "merge descends where both sides hold a dictionary")
+        # --- a scan body that saves nothing leaves no trace in the collected state (no empty namespace entries)
+        c3 = "state.State.eval_jaxpr_state[scan_p] (tag-free body)"
+        try:
+            m = I.model("jax.lax.scan_p", params, {}, invals=list(invals), stack=["a"])
+            m.bind(("scan_carry", sid, None), [Opq("kk")])
+            if isinstance(carry, tuple) and carry[0] in ("tuple", "list"):
+                for i, c_ in enumerate(carry[1]):
+                    m.bind(c_, [Opq("kk", i)])
+            m.bind(x, [Opq("xx")])
+            sc = statecalls[0]
+            m.bind(("idx", sc, C(0)), [Opq("r", 0), Opq("r", 1)])
+            m.bind(("idx", sc, C(1)), {})
+            m.bind(("scan_final", sid), [Opq("F")])
+            effs = I.effects(m)
+        except Unknown as e:
+            raise AnalysisError(f"{c3}: cannot evaluate the arm: {e}")
+        left = [e for e in effs if e[0] in ("touch", "write", "clobber") or (e[0] in ("merge", "deepmerge") and len(e[1]) and False)]
+        if left:
+            ctx.bad("ALG-scan-merge", c3, "a scan body that saves nothing leaves the collected state untouched",
+                    f"with an empty body state the arm still performs {fmt(left)}: the enclosing namespaces are created as empty dictionaries "
+                    "(state(namespace(lambda: scan(tag_free_body, ...), 'a'))) returns {'a': {}})", f"{I.s.module.path}:{left[0][3]}" if left[0][3] else I.loc)
+        else:
+            ctx.ok("ALG-scan-merge", c3, "no node is created for an empty body state")
     problems = list(dict.fromkeys(problems))
     if problems:
         ctx.bad("ROLE-state-scan", construct, "scan re-issued with same length/reverse and (ys, body_state) outputs", "; ".join(problems), I.loc)
@@ -946,5 +1151,5 @@ def save_and_state(ctx, rule="ROLE-save"):
         ctx.bad(rule, "state.State.eval", "returns (result, collected_state)", f"found {short(r, ev, 200)}", func_loc(ctx, dotted))
 
 
-RULES = [interpreter_rules, nested_set, namespace_pairing, tag_state_rules, save_and_state]
+RULES = [interpreter_rules, state_fallthrough, nested_set, namespace_pairing, tag_state_rules, save_and_state]
 FLOOR = 12
